@@ -210,4 +210,116 @@ theorem shutdown_live (s : St) (hc : Core s) (h0 : liveRefs s = 0 ∨ s.ctx = 0)
   · intro h1 h2; simp at h1 h2; omega
   · intro h; simp at h
 
+
+/-- the state after the spawn in `startResolveLocked` -/
+def spawned (s1 : St) : St :=
+  { s1 with calls := s1.calls ++ [newCall s1], waitCh := some s1.calls.length
+            rcancel := some s1.calls.length }
+
+theorem startResolve_eq (s : St) :
+    startResolve s = if s.ctx = 0 ∨ liveRefs s = 0 then shutdown s else spawned (shutdown s) := by
+  simp [startResolve, spawned]
+
+theorem spawned_call (s1 : St) (j : Nat) (c : Call) (h : (spawned s1).calls[j]? = some c) :
+    (j < s1.calls.length ∧ s1.calls[j]? = some c) ∨ (j = s1.calls.length ∧ c = newCall s1) := by
+  exact getElem?_snoc_cases _ _ _ _ h
+
+theorem spawned_core (s1 : St) (hc : Core s1) (hstale : ∀ (j : Nat) (c : Call), s1.calls[j]? = some c → c.nonce < s1.nonce)
+    (hnr : s1.resolved = false) (hl : 0 < liveRefs s1) : Core (spawned s1) := by
+  have hcur := cur_none_of_unresolved s1 hc hnr
+  have hcfg : s1.cfgd = true := by
+    cases h : s1.cfgd
+    · have := (hc.pre h).1; simp [liveRefs, this] at hl
+    · rfl
+  refine ⟨?_, ?_, ?_, ?_, ?_, hc.resCur, ?_, hc.curNone, hc.tgtVal, hc.tgtErr, ?_, ?_, ?_, ?_, ?_, hc.told, ?_, hc.panicF, hc.pendNE, ?_⟩
+  · intro h; simp [spawned, hcfg] at h
+  · have h1 := Chain.inv_spawn (chainSlot s1) hc.chain
+    refine chain_congr _ _ h1 (by simp [spawned, chainSlot, Chain.spawnSlot]) (by simp [spawned, chainSlot, Chain.spawnSlot]) ?_
+    intro j x hx
+    rw [chainSlot_get] at hx
+    cases hcj : (spawned s1).calls[j]? with
+    | none => simp [hcj] at hx
+    | some c =>
+      simp [hcj] at hx
+      rcases spawned_call s1 j c hcj with ⟨hlt, h⟩ | ⟨hj, h⟩
+      · refine ⟨c.ci, ?_, by rw [hx], by rw [hx]⟩
+        rw [Chain.get_spawn]; simp only [chainSlot, List.length_map, hlt, if_true, List.getElem?_map, h]; rfl
+      · refine ⟨Chain.newInst (chainSlot s1), ?_, ?_, ?_⟩
+        · rw [Chain.get_spawn]; simp [chainSlot, hj]
+        · rw [← hx, h]; simp [Chain.newInst, chainSlot, newCall]
+        · rw [← hx, h]; simp [Chain.newInst, newCall]
+  · intro i c h
+    rcases spawned_call s1 i c h with ⟨_, h⟩ | ⟨_, h⟩
+    · exact hc.nonceLe i c h
+    · simp [h, newCall, spawned]
+  · intro i j ci cj hi hj hij
+    rcases spawned_call s1 j cj hj with ⟨hjl, hj'⟩ | ⟨hje, hj'⟩
+    · rcases spawned_call s1 i ci hi with ⟨_, hi'⟩ | ⟨hie, _⟩
+      · exact hc.nonceLt i j ci cj hi' hj' hij
+      · omega
+    · rcases spawned_call s1 i ci hi with ⟨_, hi'⟩ | ⟨hie, _⟩
+      · have := hstale i ci hi'; simp [hj', newCall]; exact this
+      · omega
+  · intro l; simp [spawned]; omega
+  · intro i h; simp [spawned, hcur] at h
+  · intro i c h hr
+    rcases spawned_call s1 i c h with ⟨_, h⟩ | ⟨_, h⟩
+    · exact hc.relFin i c h hr
+    · simp [h, newCall] at hr
+  · intro i c h hr
+    rcases spawned_call s1 i c h with ⟨_, h⟩ | ⟨_, h⟩
+    · exact hc.storedFin i c h hr
+    · simp [h, newCall] at hr
+  · intro i c v e h hf hres hr
+    rcases spawned_call s1 i c h with ⟨_, h⟩ | ⟨_, h⟩
+    · exact hc.noLeak i c v e h hf hres hr
+    · simp [h, newCall] at hf
+  · intro i c h
+    rcases spawned_call s1 i c h with ⟨_, h⟩ | ⟨_, h⟩
+    · exact hc.finSt i c h
+    · simp [h, newCall]
+  · intro i c h hr
+    rcases spawned_call s1 i c h with ⟨_, h⟩ | ⟨_, h⟩
+    · exact hc.resSt i c h hr
+    · simp [h, newCall] at hr
+  · intro i h
+    simp [spawned] at h; subst h
+    exact ⟨newCall s1, by simp [spawned], by simp [newCall, spawned]⟩
+  · intro i c h hd
+    rcases spawned_call s1 i c h with ⟨_, h⟩ | ⟨_, h⟩
+    · exact hc.deadC i c h hd
+    · simp [h, newCall, spawned] at hd ⊢; exact hd
+
+theorem spawned_live (s1 : St) (hc : Core s1) (hstale : ∀ (j : Nat) (c : Call), s1.calls[j]? = some c → c.nonce < s1.nonce)
+    (hnr : s1.resolved = false) (hl : 0 < liveRefs s1) (hctx : s1.ctx ≠ 0) : Live (spawned s1) := by
+  refine ⟨?_, ?_, ?_⟩
+  · intro i c h hn
+    rcases spawned_call s1 i c h with ⟨_, h⟩ | ⟨hi, hnew⟩
+    · have := hstale i c h; simp [spawned] at hn; omega
+    · subst hi
+      refine ⟨by simp [hnew, newCall, spawned], by simpa [spawned] using hctx, by simp [spawned], ?_, ?_, ?_⟩
+      · simp [hnew, newCall, spawned]
+      · intro _; simpa [spawned, liveRefs] using hl
+      · simp [hnew, newCall]
+  · intro _ _
+    right
+    exact ⟨s1.calls.length, newCall s1, by simp [spawned], by simp [newCall, spawned]⟩
+  · intro h; simp [spawned, hnr] at h
+
+/-- `startResolveLocked` re-establishes the whole invariant from the context-free part -/
+theorem startResolve_inv (s : St) (hc : Core s) : Inv (startResolve s) := by
+  rw [startResolve_eq]
+  have h1 := shutdown_core s hc
+  split
+  · rename_i h
+    exact ⟨h1, shutdown_live s hc (by rcases h with h | h; exact Or.inr h; exact Or.inl h)⟩
+  · rename_i h
+    have hctx : s.ctx ≠ 0 := fun e => h (Or.inl e)
+    have hl : 0 < liveRefs s := by
+      rcases Nat.eq_zero_or_pos (liveRefs s) with e | e
+      · exact absurd (Or.inr e) h
+      · exact e
+    exact ⟨spawned_core _ h1 (shutdown_stale s hc) (by simp) (by simpa using hl),
+           spawned_live _ h1 (shutdown_stale s hc) (by simp) (by simpa using hl) (by simpa using hctx)⟩
+
 end UtilModel.RefCount
